@@ -26,7 +26,8 @@ struct out_msg {            // broker -> client QoS 1/2 exchange kept for retran
 };
 
 struct broker {
-    struct bconn { int id; int host; std::string inbuf; bool connected = false; bool closed = false; };
+    struct bconn { int id; int host; std::string inbuf; bool connected = false; bool closed = false;
+                   bool poisoned = false; /* hostile bytes left the stream mid-packet / malformed: the broker says nothing more on it */ };
     std::map<int, bconn> conns;
     std::deque<connack_cfg> connack_queue;
     connack_cfg connack_default;
@@ -174,18 +175,19 @@ struct broker {
             if (pk.type == ref::PUBACK && m.qos == 1) { outbound.erase(outbound.begin() + i); return; }
             if (pk.type == ref::PUBREC && m.qos == 2) {
                 if (pk.rc >= 0x80) { outbound.erase(outbound.begin() + i); return; }
-                m.state = 1; send_pubrel(bc.id, m.pid); return;
+                m.state = 1; add_obl(bc.id, ref::PUBREL, m.pid, 0, 0, {}); return;
             }
             if (pk.type == ref::PUBCOMP && m.qos == 2 && m.state == 1) { outbound.erase(outbound.begin() + i); return; }
             return;
         }
-        if (pk.type == ref::PUBREC) send_pubrel(bc.id, pk.pid); // unknown id: MQTT says answer PUBREL (0x92)
+        if (pk.type == ref::PUBREC) add_obl(bc.id, ref::PUBREL, pk.pid, 0, 0x92, {}); // unknown id: MQTT says answer PUBREL (0x92)
     }
 
     // ---------------------------------------------------------------- obligations
     void add_obl(int c, int kind, int pid, int nt, int rc, std::vector<uint8_t> codes) {
         obligation o { next_obl++, c, kind, pid, nt, (int) krecv, std::move(codes), rc };
         obl.push_back(o);
+        { auto itc = conns.find(c); if (itc != conns.end() && itc->second.poisoned) { obl.pop_back(); return; } }
         if (!hold.count(kind)) answer(obl.size() - 1, nullptr);
     }
 
@@ -211,7 +213,7 @@ struct broker {
         if (i >= obl.size()) return false;
         obligation o = obl[i];
         obl.erase(obl.begin() + i);
-        auto it = conns.find(o.conn); if (it == conns.end() || it->second.closed) return true;
+        auto it = conns.find(o.conn); if (it == conns.end() || it->second.closed || it->second.poisoned) return true;
         ref::packet pk; pk.type = (uint8_t) o.kind; pk.pid = o.pid; pk.rc = o.dflt_rc; pk.codes = o.dflt_codes;
         int shortform = 0;
         if (ov) {
@@ -252,7 +254,7 @@ struct broker {
         for (int p = 1;; ++p) { bool used = false; for (auto& m : outbound) if (m.pid == p) used = true; if (!used) return p; }
     }
     int publish(int c, const std::string& topic, const std::string& payload, int qos, int retain, const ref::props_t& props) {
-        auto it = conns.find(c); if (it == conns.end() || it->second.closed) return -1;
+        auto it = conns.find(c); if (it == conns.end() || it->second.closed || it->second.poisoned) return -1;
         ref::packet pk; pk.type = ref::PUBLISH; pk.topic = topic; pk.payload = payload; pk.qos = qos; pk.retain = retain; pk.props = props;
         if (qos) { pk.pid = free_out_pid(); outbound.push_back(out_msg { pk.pid, qos, msg_token(payload), pk, 0 }); }
         log_send(c, pk, 0, msg_token(payload));
@@ -260,7 +262,7 @@ struct broker {
         return pk.pid;
     }
     void send_pubrel(int c, int pid) {
-        auto it = conns.find(c); if (it == conns.end() || it->second.closed) return;
+        auto it = conns.find(c); if (it == conns.end() || it->second.closed || it->second.poisoned) return;
         ref::packet pk; pk.type = ref::PUBREL; pk.pid = pid; pk.rc = 0;
         bool known = false; for (auto& m : outbound) if (m.pid == pid && m.qos == 2) known = true;
         if (!known) pk.rc = 0x92;
@@ -286,10 +288,49 @@ struct broker {
         it->second.closed = true; drop_obligations(c);
         W().broker_close(c);
     }
+    // Raw bytes from a (possibly hostile) broker.  What the broker sends is logged for the observer:
+    // every complete packet that IS well-formed MQTT is logged as a normal b_send (so that an operation it
+    // legitimately completes is not mistaken for a false success); anything else as b_raw with ok=0.
     void raw(int c, const std::string& bytes) {
-        auto it = conns.find(c); if (it == conns.end() || it->second.closed) return;
-        jev("b_raw").i("c", c).i("nb", (long long) bytes.size());
+        auto it = conns.find(c); if (it == conns.end() || it->second.closed || it->second.poisoned) return;
+        size_t off = 0; int good = 0; bool close_after = false;
+        bool save_strict = ref::strict_strings; ref::strict_strings = false;
+        // the leading packets that are well-formed and that a server may send here are ordinary broker packets
+        while (off < bytes.size()) {
+            ref::packet pk; size_t n = ref::decode_packet((const unsigned char*) bytes.data() + off, bytes.size() - off, pk);
+            if (n == 0 || !pk.ok || !server_may_send(pk, it->second.connected)) break;
+            int ans = 0;
+            for (size_t i = 0; i < obl.size(); ++i)
+                if (obl[i].conn == c && obl[i].kind == pk.type && obl[i].pid == (pk.pid < 0 ? 0 : pk.pid)) { ans = obl[i].k; obl.erase(obl.begin() + i); break; }
+            if (pk.type == ref::PUBCOMP) qos2_recv.erase(pk.pid);
+            if (pk.type == ref::CONNACK) { if (pk.rc < 0x80) { if (!pk.sp) { qos2_recv.clear(); outbound.clear(); } session = true; it->second.connected = true; } else close_after = true; }
+            if (pk.type == ref::PUBLISH && pk.qos) outbound.push_back(out_msg { pk.pid, pk.qos, msg_token(pk.payload), pk, 0 });
+            if (pk.type == ref::DISCONNECT) close_after = true;
+            log_send(c, pk, ans, pk.type == ref::PUBLISH ? msg_token(pk.payload) : std::string());
+            ++good; off += n;
+            if (close_after) break;
+        }
+        ref::strict_strings = save_strict;
+        bool rest = off < bytes.size();
+        if (rest) { it->second.poisoned = true; drop_obligations(c); }
+        if (rest) jev("b_raw").i("c", c).i("nb", (long long) (bytes.size() - off)).i("ok", 0).i("good", good);
         W().broker_send(c, bytes);
+        if (close_after && !rest) { it->second.closed = true; drop_obligations(c); W().broker_close(c); }
+    }
+    // packets a server may send at all, with admissible reason codes (a stricter notion than "decodes")
+    static bool server_may_send(const ref::packet& pk, bool connected) {
+        auto in = [](int v, std::initializer_list<int> s) { for (int x : s) if (x == v) return true; return false; };
+        if (!connected) return pk.type == ref::CONNACK && in(pk.rc, { 0, 128, 129, 130, 131, 132, 133, 134, 135, 136, 137, 138, 140, 144, 149, 151, 153, 154, 155, 156, 157, 159 });
+        switch (pk.type) {
+            case ref::PUBLISH: return pk.topic.find('#') == std::string::npos && pk.topic.find('+') == std::string::npos && !pk.topic.empty();
+            case ref::PUBACK: case ref::PUBREC: return in(pk.rc, { 0, 16, 128, 131, 135, 144, 145, 151, 153 });
+            case ref::PUBREL: case ref::PUBCOMP: return in(pk.rc, { 0, 146 });
+            case ref::SUBACK: for (auto x : pk.codes) if (!in(x, { 0, 1, 2, 128, 131, 135, 143, 145, 151, 158, 161, 162 })) return false; return true;
+            case ref::UNSUBACK: for (auto x : pk.codes) if (!in(x, { 0, 17, 128, 131, 135, 143, 145 })) return false; return true;
+            case ref::PINGRESP: return true;
+            case ref::DISCONNECT: return in(pk.rc, { 0, 128, 129, 130, 131, 135, 137, 139, 141, 142, 143, 144, 147, 148, 149, 150, 151, 152, 153, 154, 155, 156, 157, 158, 159, 160, 161, 162 });
+            default: return false;   // CONNACK twice, AUTH without authenticator, client-only packet types
+        }
     }
 };
 
